@@ -9,6 +9,7 @@ import (
 	"github.com/gogo/protobuf/proto"
 	pb "github.com/ipfs/boxo/ipld/unixfs/pb"
 	"github.com/ipfs/go-cid"
+	"github.com/ipfs/go-unixfsnode"
 	"github.com/ipfs/go-unixfsnode/data"
 	"github.com/ipfs/go-unixfsnode/hamt"
 	dagpb "github.com/ipld/go-codec-dagpb"
@@ -225,6 +226,9 @@ func TestC14(t *testing.T) {
 				{"no-fanout", "error", &pb.Data{Type: &st5, HashType: mur, Data: []byte{1}}, 1, 1},
 				{"no-bitfield-with-links", "error", &pb.Data{Type: &st5, HashType: mur, Fanout: proto.Uint64(8)}, 2, 1},
 				{"bitfield-too-long", "error", &pb.Data{Type: &st5, HashType: mur, Fanout: proto.Uint64(8), Data: []byte{0, 1, 1}}, 1, 1},
+				{"bitfield-too-long-zero-padded", "error", &pb.Data{Type: &st5, HashType: mur, Fanout: proto.Uint64(8), Data: []byte{0, 1}}, 1, 1},
+				{"bitfield-too-long-zero-padded-f256", "error", &pb.Data{Type: &st5, HashType: mur, Fanout: proto.Uint64(256), Data: append(bf(32, 0), 0x01)}, 1, 2},
+				{"bitfield-too-long-all-zero", "error", &pb.Data{Type: &st5, HashType: mur, Fanout: proto.Uint64(16), Data: bf(3, 0)}, 0, 1},
 			}
 			for _, f := range []uint64{0, 1, 2, 3, 4, 6, 12, 24, 100, 1000, 2048, 4096, 1 << 20, 1 << 40, 1 << 62, 1 << 63, ^uint64(0)} {
 				for _, withBF := range []bool{true, false} {
@@ -332,6 +336,10 @@ func TestC14(t *testing.T) {
 				}},
 				{"unixfs-preload", func(n ipld.Node) (ipld.Node, error) {
 					return ls.KnownReifiers["unixfs-preload"](ipld.LinkContext{Ctx: bg}, n, ls)
+				}},
+				// lazy reification needs no block beyond the node it is given: no link system, same answer
+				{"Reify-without-linksystem", func(n ipld.Node) (ipld.Node, error) {
+					return unixfsnode.Reify(ipld.LinkContext{Ctx: bg}, n, nil)
 				}},
 			}
 			for _, in := range inputs {
